@@ -2,7 +2,7 @@
 from checks import symgen, refqr, refmicro, refrmqr
 
 ID = 'C05'
-PROP_MODULES = ['QRV.Props.C05', 'QRV.Props.C05Ext']
+PROP_MODULES = ['QRV.Props.C05', 'QRV.Props.C05Ext', 'QRV.Props.C05TooLarge']
 RULE = ('for every (version, level) row and every mode: payloads of max-1, max, max+1 characters of that row\'s capacity (digits, alphanumerics, bytes, kanji) and mixed-mode payloads '
         'straddling it, x kanji on/off x rMQR priorities {area, height, width}. Oracle: the returned version holds the returned segments by the standard\'s exact bit lengths (kanji per '
         'character), no smaller admissible version (QR: lower number; Micro QR: lower admissible version; rMQR: smaller area / height / width) holds them, and "too large" is answered '
@@ -13,12 +13,12 @@ TRUSTED = [
     'models of calcVersion / segment length tied by correspondence',
 ]
 ASSUMPTIONS = []
-PARTIAL = 'minimality and length_agrees are theorems for QR, Micro QR (lowest admissible version) and rMQR (least height / least width; least area fails: finding D19); the too-large clause (DP optimality against a single byte segment) is exercised at every capacity boundary'
+PARTIAL = 'minimality and length_agrees are theorems for QR, Micro QR (lowest admissible version) and rMQR (least height / least width; least area fails: finding D19); the too-large clause is a theorem for QR without kanji (qr_new_not_too_large: a payload that fits version 40 as one byte segment is never refused - exact per-segment accounting of the rounding between the DP costs in sixths of a bit and the true bit lengths); with kanji and for Micro QR / rMQR it is exercised at every capacity boundary'
 MANIFEST = {
     'technique': 'Lean 4: calcVersion is a first-fit scan (QR, Micro QR: the minimal version; rMQR: the first fitting entry of an order list whose sortedness by height / width is kernel-evaluated, hence least height / width), model segment length = standard bit length in all three packages; boundary payloads by differential runs',
     'text': ('QRV/Props/C05.lean proves: the model\'s segment length equals the standard\'s bit length for every mode, version and remainder class (kanji per character); QR calcVersion returns a version that '
              'holds the segments and no smaller one does, and 0 only if none of 1..40 does; rMQR calcVersion returns the FIRST entry of the order list of the requested priority that holds them, and the height and '
-             'width lists are sorted by that measure (kernel evaluation), hence a version of least height / width. QRV/Props/C05Ext.lean proves the Micro QR and rMQR length functions equal the standard\'s (mode availability per version, kanji per character), that Micro QR calcVersion returns the lowest version that holds the segments at the level (legal pairs and data bits related to the standard\'s table by kernel evaluation), and that rMQR with priority height / width returns a version of least height / width among ALL versions that hold them. The area list is NOT sorted by area on the pinned tree (finding D19). Minimality against the '
+             'width lists are sorted by that measure (kernel evaluation), hence a version of least height / width. QRV/Props/C05Ext.lean proves the Micro QR and rMQR length functions equal the standard\'s (mode availability per version, kanji per character), that Micro QR calcVersion returns the lowest version that holds the segments at the level (legal pairs and data bits related to the standard\'s table by kernel evaluation), and that rMQR with priority height / width returns a version of least height / width among ALL versions that hold them. Props/C05TooLarge.lean: QR New (kanji off) reports too large only if the payload does not fit version 40 even as a single byte-mode segment. The area list is NOT sorted by area on the pinned tree (finding D19). Minimality against the '
              'independent reference tables and the too-large clause are exercised at every (version, level, mode) capacity boundary.'),
     'note': 'Trusted: Lean kernel; models tied by correspondence; reference capacities (rMQR rows not independent).',
 }
